@@ -30,8 +30,23 @@ type GkrGate struct {
 }
 
 type GkrSeries struct {
-	Input int `json:"input"`
-	Gate  int `json:"gate"`
+	Input   int    `json:"input"`
+	Gate    int    `json:"gate"`
+	Pattern string `json:"pattern"`
+}
+
+// dep: does instance k take the dependent input from instance k-1?
+func (s GkrSeries) dep(k int) bool {
+	if s.Input < 0 || k == 0 {
+		return false
+	}
+	switch s.Pattern {
+	case "alt":
+		return k%2 == 1
+	case "single":
+		return k == 1
+	}
+	return true
 }
 
 type GkrBeh struct {
@@ -40,6 +55,7 @@ type GkrBeh struct {
 	Gates   []GkrGate `json:"gates"`
 	NInst   int       `json:"nInst"`
 	Series  GkrSeries `json:"series"`
+	Late    bool      `json:"late"`
 	Outputs []int     `json:"outputs"`
 	Probe   [][]int   `json:"probe"`
 }
@@ -76,22 +92,30 @@ type GkrCircuit struct {
 func (c *GkrCircuit) Define(api frontend.API) error {
 	t := c.Topo
 	g := gkr.NewApi()
-	vars := make([]constraint.GkrVariable, 0, t.NIn+len(t.Gates))
-	for i := 0; i < t.NIn; i++ {
+	vars := make([]constraint.GkrVariable, t.NIn+len(t.Gates))
+	imp := func(i int) error {
 		as := make([]frontend.Variable, t.NInst)
 		copy(as, c.In[i])
 		if t.Series.Input == i {
 			for k := 1; k < t.NInst; k++ {
-				as[k] = nil
+				if t.Series.dep(k) {
+					as[k] = nil
+				}
 			}
 		}
 		v, err := g.Import(as)
-		if err != nil {
+		vars[i] = v
+		return err
+	}
+	for i := 0; i < t.NIn; i++ {
+		if t.Late && i == 1 {
+			continue // imported after the first gate
+		}
+		if err := imp(i); err != nil {
 			return err
 		}
-		vars = append(vars, v)
 	}
-	for _, gt := range t.Gates {
+	for gi, gt := range t.Gates {
 		var v constraint.GkrVariable
 		switch gt.Op {
 		case "add":
@@ -107,11 +131,18 @@ func (c *GkrCircuit) Define(api frontend.API) error {
 		default:
 			return fmt.Errorf("unknown gate %q", gt.Op)
 		}
-		vars = append(vars, v)
+		vars[t.NIn+gi] = v
+		if gi == 0 && t.Late {
+			if err := imp(1); err != nil {
+				return err
+			}
+		}
 	}
 	if t.Series.Input >= 0 {
 		for k := 1; k < t.NInst; k++ {
-			g.Series(vars[t.Series.Input], vars[t.NIn+t.Series.Gate-1], k, k-1)
+			if t.Series.dep(k) {
+				g.Series(vars[t.Series.Input], vars[t.NIn+t.Series.Gate-1], k, k-1)
+			}
 		}
 	}
 	sol, err := g.Solve(api)
@@ -143,7 +174,7 @@ func c19Eval(t *GkrBeh, in func(inst, i int) *big.Int, mod *big.Int) [][]*big.In
 	for k := 0; k < t.NInst; k++ {
 		vals := make([]*big.Int, 0, t.NIn+len(t.Gates))
 		for i := 0; i < t.NIn; i++ {
-			if t.Series.Input == i && k > 0 {
+			if t.Series.Input == i && t.Series.dep(k) {
 				vals = append(vals, prev[t.NIn+t.Series.Gate-1])
 			} else {
 				vals = append(vals, new(big.Int).Mod(in(k, i), mod))
